@@ -45,4 +45,5 @@ Definition run_generic (code : Z) (ws : list Z) : list Z :=
   else if code =? 9 then run_ord ws
   else if code =? 10 then run_json_parse ws
   else if code =? 11 then run_json_print ws
+  else if code =? 12 then run_sig ws
   else [-2].
